@@ -121,6 +121,14 @@ def run_case(cs):
         if world.add_dir_symlinks(rng, root, {k: v for k, v in world.read_tree(root).items()}, rng.randint(1, 2), outside=os.path.join(d, "outside")):
             cs.count("trees_with_folder_symlinks")
     hists = world.find_histories(root)
+    denied = None
+    if rng.random() < 0.04:
+        # one folder below the root cannot be listed (no permission, I/O error): the run may fail, but a generation that
+        # is written anyway must not pass the folder off as empty
+        dd = sorted(k for k, v in world.read_tree(root).items() if v is None and os.listdir(os.path.join(root, k)))
+        if dd:
+            denied = os.path.join(root, rng.choice(dd))
+            cs.count("cases_with_unlistable_folder")
     mode = "sf" if rng.random() < 0.3 and any(v is not None for v in tree.values()) else "folder"
     formats = world.gen_formats(rng, repeat=True)
     ondisk = world.read_tree(root)
@@ -134,7 +142,19 @@ def run_case(cs):
             extra.append("-n")
         prev = hist.latest_patterns(root, ".") if "." in hists else None
         patterns = (prev if prev else list(ignoreref.DEFAULTS)) + cli_pats
-        r, new, before, after = hist.create(root, formats, extra)
+        from .. import listing
+
+        listing.deny(denied)
+        try:
+            r, new, before, after = hist.create(root, formats, extra)
+        finally:
+            listing.deny(None)
+        if denied and r.internal and isinstance(r.exc, PermissionError):
+            cs.count("unlistable_folder_run_failed_cleanly")
+            if any(n.endswith(".mhl") for names in new.values() for n in names):
+                cs.evaluated()
+                cs.violation("record-missing", {"kind": "generation-written-although-listing-failed", "mode": mode}, {"steps": steps})
+            return
         steps.append(("create-final", extra, r.exit))
         expected = {}
         dontcare = set()
